@@ -42,6 +42,7 @@ ABTI_waitlist_wait_and_unlock(ABTI_local **pp_local, ABTI_waitlist *p_waitlist,
             p_waitlist->p_tail->p_next = &thread;
         }
         p_waitlist->p_tail = &thread;
+        ABTV_EVENT(ABTV_EV_WAITLIST_ENQUEUE, p_waitlist, &thread);
 
         /* Non-yieldable thread is waiting here. */
 #ifdef ABT_CONFIG_ACTIVE_WAIT_POLICY
@@ -78,6 +79,7 @@ ABTI_waitlist_wait_and_unlock(ABTI_local **pp_local, ABTI_waitlist *p_waitlist,
             p_waitlist->p_tail->p_next = &p_ythread->thread;
         }
         p_waitlist->p_tail = &p_ythread->thread;
+        ABTV_EVENT(ABTV_EV_WAITLIST_ENQUEUE, p_waitlist, &p_ythread->thread);
 
         /* Suspend the current ULT */
         ABTI_ythread_suspend_unlock(&p_local_xstream, p_ythread, p_lock,
@@ -116,6 +118,7 @@ static inline ABT_bool ABTI_waitlist_wait_timedout_and_unlock(
         thread.p_prev = p_waitlist->p_tail;
     }
     p_waitlist->p_tail = &thread;
+    ABTV_EVENT(ABTV_EV_WAITLIST_ENQUEUE_TIMED, p_waitlist, &thread);
 
     /* Waiting here. */
     if (p_ythread) {
@@ -180,6 +183,7 @@ timeout:
             : ABT_FALSE;
     if (!is_timedout) {
         ABTV_REACH("waitlist.deadline_passed_but_signalled");
+        ABTV_EVENT(ABTV_EV_WAITLIST_TIMEOUT_WOKEN, p_waitlist, &thread);
     }
     if (is_timedout) {
         /* This thread is still in the list. */
@@ -214,6 +218,7 @@ timeout:
         }
         /* We do not need to modify thread->p_prev and p_next since this
          * dummy thread is no longer used. */
+        ABTV_EVENT(ABTV_EV_WAITLIST_TIMEOUT_UNLINK, p_waitlist, &thread);
     }
     ABTD_spinlock_release(p_lock);
     return is_timedout;
@@ -226,6 +231,7 @@ static inline void ABTI_waitlist_signal(ABTI_local *p_local,
     if (p_thread) {
         ABTI_thread *p_next = p_thread->p_next;
         p_thread->p_next = NULL;
+        ABTV_EVENT(ABTV_EV_WAITLIST_DEQUEUE, p_waitlist, p_thread);
 
         ABTI_ythread *p_ythread = ABTI_thread_get_ythread_or_null(p_thread);
         if (p_ythread) {
@@ -247,6 +253,7 @@ static inline void ABTI_waitlist_signal(ABTI_local *p_local,
         if (!p_next)
             p_waitlist->p_tail = NULL;
     }
+    ABTV_EVENT(ABTV_EV_WAITLIST_SIGNAL_DONE, p_waitlist, NULL);
 }
 
 static inline void ABTI_waitlist_broadcast(ABTI_local *p_local,
@@ -258,6 +265,7 @@ static inline void ABTI_waitlist_broadcast(ABTI_local *p_local,
         do {
             ABTI_thread *p_next = p_thread->p_next;
             p_thread->p_next = NULL;
+            ABTV_EVENT(ABTV_EV_WAITLIST_DEQUEUE, p_waitlist, p_thread);
 
             ABTI_ythread *p_ythread = ABTI_thread_get_ythread_or_null(p_thread);
             if (p_ythread) {
@@ -283,6 +291,7 @@ static inline void ABTI_waitlist_broadcast(ABTI_local *p_local,
         (void)wakeup_nonyieldable;
 #endif
     }
+    ABTV_EVENT(ABTV_EV_WAITLIST_BROADCAST_DONE, p_waitlist, NULL);
 }
 
 static inline ABT_bool ABTI_waitlist_is_empty(ABTI_waitlist *p_waitlist)
